@@ -1,8 +1,8 @@
---------------------------- MODULE RedirectURITrace ---------------------------
-(* Monitor: evaluates the rules of RedirectURI on the outcomes observed on the real code.  obs.ndjson holds one *)
+--------------------------- MODULE VerifierTrace ---------------------------
+(* Monitor: evaluates the rules of Verifier on the outcomes observed on the real code.  obs.ndjson holds one *)
 (* line [id, c, o] per executed case (c echoed from cases.ndjson, o = projected observation).          *)
 (* Every line is an initial state; failing rules are printed as VIOL lines (collected by tools).       *)
-EXTENDS RedirectURI, Json, SequencesExt
+EXTENDS Verifier, Json, SequencesExt
 VARIABLE l
 Obs == ndJsonDeserialize("obs.ndjson")
 Init == l \in 1..Len(Obs)
